@@ -37,6 +37,7 @@ def main():
     ap.add_argument("--tier", default=os.environ.get("VERIF_TIER", "quick"), choices=["quick", "thorough"])
     ap.add_argument("--replay")
     ap.add_argument("--gen-all", action="store_true")
+    ap.add_argument("--gen-only", action="store_true", help="regenerate only this property's tables")
     a = ap.parse_args()
     seed = int(os.environ.get("VERIF_SEED", "0") or 0)
     from vlib import framework, coqrun
@@ -57,6 +58,12 @@ def main():
         return rc
     if not a.pid:
         ap.error("property id required")
+    if a.gen_only:
+        P = framework.load_plugin(a.pid)
+        if hasattr(P, "gen"):
+            for name, text in P.gen(framework.REPO).items():
+                coqrun.write_if_changed(os.path.join(coqrun.COQ, "Gen", name + ".v"), text)
+        return 0
     return framework.main(a.pid, a.tier, seed, a.replay)
 
 
